@@ -738,6 +738,19 @@ func genC28(g *Gen, idx int) *Plan {
 // ---------------------------------------------------------------------------------------------
 // C33: client keep-alive pings only while active
 
+// Sleep() refused on the spot (wrong state): an error although nothing was sent for the call
+func sleepRefusedC33(v *View, client string, a *apiCall) bool {
+	if a.op != "sleep" || !a.returned || a.err == "nil" {
+		return false
+	}
+	for _, e := range clientTx(v, client) {
+		if e.Idx > a.invIdx && e.Idx < a.retIdx {
+			return false
+		}
+	}
+	return true
+}
+
 func oracleC33(v *View, vd *Verdict) {
 	for ci := range v.R.Plan.Clients {
 		cp := &v.R.Plan.Clients[ci]
@@ -771,13 +784,30 @@ func oracleC33(v *View, vd *Verdict) {
 			}
 		}
 		sortEvs()
+		// the oracle reads the client's own state from its debug log ("State changed to %q."): a client
+		// that was told CONNACK(accepted) and never logged a change means the line is gone, not that
+		// the client pings while disconnected
+		{
+			nState, accepted := 0, false
+			for _, x := range evs {
+				if x.st != "" {
+					nState++
+				} else if !x.tx && x.e.SNErr == nil && x.e.SN.Type == refsn.CONNACK && x.e.SN.RC == 0 {
+					accepted = true
+				}
+			}
+			if accepted && nState == 0 {
+				vd.Harness = "C33 oracle: client " + cp.Name + " received CONNACK(accepted) but never logged \"State changed to ...\" (client.stateChanged): the oracle reads the client's state from that debug line"
+				return
+			}
+		}
 		state := "disconnected"
 		var activeSince, lastPing int64 = -1, -1
 		lossy := len(v.R.Plan.Cfg.SN.Rules) > 0 || (v.R.Plan.SGW != nil && (len(v.R.Plan.SGW.Rules) > 0 || v.R.Plan.SGW.SilentAtMs > 0))
 		// once an API call has failed the client's goroutine group is cancelled: nothing more is owed
 		deadIdx := int(^uint(0) >> 1)
 		for _, a := range apiCalls(v) {
-			if a.client == cp.Name && a.returned && a.err != "nil" && !strings.Contains(a.err, "cannot call Sleep") && a.retIdx < deadIdx {
+			if a.client == cp.Name && a.returned && a.err != "nil" && !sleepRefusedC33(v, cp.Name, a) && a.retIdx < deadIdx {
 				deadIdx = a.retIdx
 			}
 		}
@@ -847,7 +877,7 @@ func oracleC33(v *View, vd *Verdict) {
 					continue
 				}
 				bound := apiBound(v.R.Plan, cp, a) + v.R.StalledNs
-				if a.returned && a.err != "nil" && !strings.Contains(a.err, "cannot call Sleep") {
+				if a.returned && a.err != "nil" && !sleepRefusedC33(v, cp.Name, a) {
 					// later failures are consequences of the first one (the client's goroutine group is cancelled)
 					vd.Add("C33", "C33/api-call-failed/first="+a.op+"/"+errClassTX(a.err), "client %s: %s returned %q although the gateway answered everything (keep-alive %d ms)", cp.Name, a.desc, a.err, cp.KeepAliveMs)
 					break
